@@ -134,7 +134,8 @@ RefNormParts(u, o) ==
       HostOr(x, fallback) == IF JoinWith(x, 46) = <<>> THEN fallback ELSE x
       hostl1 == IF o.sub THEN HostOr(StripSubdomains(hostl0, o.amp), hostl0) ELSE hostl0
       \* what follows 'amp-' can be an irrelevant subdomain too ('amp-www.x.com')
-      hostl2a == IF o.amp /\ JoinWith(hostl1, 46) # <<97, 109, 112, 45>> THEN StripAmpDash(hostl1) ELSE hostl1
+      \* (a punycode label hidden behind the prefix is decoded once the prefix is gone: 'amp-xn--caf-dma.fr')
+      hostl2a == IF o.amp /\ JoinWith(hostl1, 46) # <<97, 109, 112, 45>> THEN HostLabels(JoinWith(StripAmpDash(hostl1), 46)) ELSE hostl1
       hostl2 == IF o.amp /\ o.sub /\ hostl2a # hostl1 THEN HostOr(StripSubdomains(hostl2a, o.amp), hostl2a) ELSE hostl2a
       hostl == IF o.lang THEN StripLang(hostl2) ELSE hostl2
       raw == SelectSeq(SplitOn(q1, 38), LAMBDA it : it # <<>>)
